@@ -844,12 +844,23 @@ let c18 = function
     else Printf.sprintf "OK %d %s" (if mixed then 1 else 0) (if mixed then "equal-text-different-kind-or-lookahead" else "plain")
   | _ -> "FAIL malformed case"
 
+(* C26 *)
+let c26 = function
+  | [A kind; _; _; res] ->
+    (match res with
+     | L [A "ok"] -> Printf.sprintf "OK 1 %s-ok" kind
+     | L (A "err" :: _) -> Printf.sprintf "OK %d %s-err" (if kind = "valid" || kind = "mutant" then 1 else 0) kind
+     | L [A "panic"; site] -> Printf.sprintf "FAIL key=panic:%s the generator pipeline panicked at %s (%s input)" (str_of_sx site) (str_of_sx site) kind
+     | _ -> "FAIL malformed result")
+  | _ -> "FAIL malformed case"
+
 let dispatch (sx : Sexp.t) : string =
   match sx with
   | L (A "lev" :: args) -> c31 args
   | L (A "eval" :: args) -> c08 args
   | L (A "aug" :: args) -> c12 args
   | L (A "wf" :: args) -> c11 args
+  | L (A "pipe" :: args) -> c26 args
   | L (A "tix" :: args) -> c18 args
   | L (A "diag" :: args) -> c29 args
   | L (A "ll" :: args) -> c01 args
